@@ -78,6 +78,9 @@ def reingold_tilford(
         x_offset (float): graph offset of x-coordinates
         y_offset (float): graph offset of y-coordinates
     """
+    # Shift values are accumulated across siblings in the first pass, start from a clean state
+    for node in iterators.preorder_iter(tree_node):
+        node.set_attrs({"shift": 0.0})
     _first_pass(tree_node, sibling_separation, subtree_separation)
     x_adjustment = _second_pass(tree_node, level_separation, x_offset, y_offset)
     _third_pass(tree_node, x_adjustment)
